@@ -43,7 +43,7 @@ Lemma run_arrive f q k ing r :
   (k = 0%nat -> r = eg_rtr (eff k)) ->
   exists q' st,
     t_ia st = ia p k /\ t_ing st = ing /\ t_eg st = tr_eg p (eff k) /\ t_rtr st = r /\
-    (S (eff k) < n)%nat /\ crosses p (eff k) = true /\ ia p (eff k) = ia p k /\
+    (S (eff k) < n)%nat /\ crosses p (eff k) = true /\ ia p (eff k) = ia p k /\ frame jlim q q' /\
     if (eg_rtr (eff k) =? r)%N
     then t_ext st = true /\ View q' (S (eff k)) (S (eff k)) false /\
          run_fuel macq t now (S f) (mkLoc (ia p k) r ing) q =
@@ -55,7 +55,7 @@ Lemma run_arrive f q k ing r :
 Proof.
   intros V Hk Hl Hj Ha H0. assert (Hk' : (k < n)%nat) by lia.
   destruct (step_arrive mac t now p pp HG Hep Hexp lim jlim q k ing r V Hk Hl Hj Ha H0)
-    as (q' & Eps & Vq & As & Hn & C).
+    as (q' & Eps & Vq & As & Hn & C & Frq).
   destruct (as_of_ok _ _ _ HG k Hk') as [Ak Ik].
   assert (Hke : (eff k < n)%nat) by lia.
   destruct (as_of_ok _ _ _ HG (eff k) Hke) as [Ake Ike].
@@ -69,11 +69,11 @@ Proof.
   destruct (eg_rtr (eff k) =? r)%N eqn:Ow.
   - rewrite Nb, Ak1, Rm, Fg. rewrite ?Ik, ?Ik1.
     exists (obs_step (mkLoc (ia p k) r ing) (tr_eg p (eff k)) true q').
-    do 7 (split; [first [reflexivity | assumption]|]).
+    do 8 (split; [first [reflexivity | assumption]|]).
     split; [reflexivity|]. split; [exact Vq|reflexivity].
   - rewrite ?Ik.
     exists (obs_step (mkLoc (ia p k) r ing) (tr_eg p (eff k)) false q').
-    do 7 (split; [first [reflexivity | assumption]|]).
+    do 8 (split; [first [reflexivity | assumption]|]).
     split; [reflexivity|]. split; [exact Vq|reflexivity].
 Qed.
 
@@ -83,18 +83,18 @@ Lemma run_mid f q k k0 :
   in_rtr k0 <> eg_rtr k ->
   exists q' st,
     t_ia st = ia p k /\ t_ing st = InSib (in_rtr k0 + 1) /\ t_eg st = tr_eg p k /\ t_ext st = true /\
-    View q' (S k) (S k) false /\
+    View q' (S k) (S k) false /\ frame jlim q q' /\
     run_fuel macq t now (S f) (mkLoc (ia p k) (eg_rtr k) (InSib (in_rtr k0 + 1))) q =
     (let '(tr, fin) := run_fuel macq t now f (ext_loc (S k)) q' in ((st, q') :: tr, fin)).
 Proof.
   intros V Hk C Hl Hj He K0 C0 As0 Hne. assert (Hk' : (k < n)%nat) by lia.
   destruct (step_mid mac t now p pp HG Hep Hexp lim jlim q k k0 (eg_rtr k) V Hk C Hl Hj He K0 C0 As0 eq_refl Hne)
-    as (q' & Eps & Vq).
+    as (q' & Eps & Vq & Frq).
   destruct (as_of_ok _ _ _ HG k Hk') as [Ak Ik].
   destruct (link_fact _ _ _ HG k Hk C) as (Ff & Fg & _ & _ & _ & _ & _ & Nb & Rm).
   destruct (as_of_ok _ _ _ HG (S k) Hk) as [Ak1 Ik1].
   exists q', (obs_step (mkLoc (ia p k) (eg_rtr k) (InSib (in_rtr k0 + 1))) (tr_eg p k) true q').
-  do 4 (split; [reflexivity|]). split; [exact Vq|].
+  do 4 (split; [reflexivity|]). split; [exact Vq|]. split; [exact Frq|].
   cbn [run_fuel l_ia l_rtr l_ing]. rewrite Ak, Eps, Ff.
   change (ni_owner (nifof k (tr_eg p k))) with (eg_rtr k). rewrite N.eqb_refl.
   rewrite Nb, Ak1, Rm, Fg. rewrite ?Ik1. reflexivity.
@@ -195,7 +195,7 @@ Proof.
     destruct (eff_le k Hk1) as [El Eu].
     assert (Hle : (eff k < n)%nat) by lia.
     destruct (run_arrive mac t now p pp HG Hep Hexp n nsegs f q k ing r V Hk1 Hle (JL _ Hle) Ha H0)
-      as (q' & st & Tia & Ting & Teg & Trt & Hn & C & Iae & Rest).
+      as (q' & st & Tia & Ting & Teg & Trt & Hn & C & Iae & _ & Rest).
     destruct (eg_rtr (eff k) =? r)%N eqn:Ow.
     + (* this router owns the egress interface *)
       destruct Rest as (Text & Vq & Er).
@@ -227,7 +227,7 @@ Proof.
       assert (Hne : in_rtr k <> eg_rtr (eff k)).
       { intros X. rewrite X, N.eqb_refl in Ow. discriminate. }
       destruct (run_mid mac t now p pp HG Hep Hexp n nsegs f q' (eff k) k Vq Hn C Hle (JL _ Hle) En K1 Cp As0 Hne)
-        as (q2 & st2 & Tia2 & Ting2 & Teg2 & Text2 & Vq2 & Er2).
+        as (q2 & st2 & Tia2 & Ting2 & Teg2 & Text2 & Vq2 & _ & Er2).
       rewrite <- Iae in Er. rewrite Er2 in Er.
       destruct (IH (S (eff k)) f q2 (InExt (tr_in p (S (eff k)))) (in_rtr (S (eff k))))
         as (tr0 & stf & qf & rtr & d & Er' & Cr & Dt & Vf); try assumption; try lia.
